@@ -680,11 +680,18 @@ example : (run h0 0 [.load [r4, r1, r3], .request 10 ru, .request 10 ru, .reques
 /-- non-vacuity with the real key: ignoring the host makes a recording for another host match -/
 private def oAll : HashOpts := ⟨false, false, false, [], [], []⟩
 private def oNoHost : HashOpts := ⟨false, true, false, [], [], []⟩
-private def rqA : ReqF := ⟨[104], [71], [47], [], [97], 80, some [], [], [], []⟩
+private def rqA : ReqF := ⟨[104], [71], [47], [], [97], 80, some [], none, [], []⟩
 private def rqB : ReqF := { rqA with host := [98] }
 private def recA : Rec ReqF := ⟨1, rqA, true, true, 7⟩
 example : (run keyOf oAll [.load [recA], .request rqB nr]).2 = [.status 404] := by decide
 example : (run keyOf oAll [.load [recA], .configure oNoHost, .request rqB nr]).2 = [.served recA] := by decide
+/-- the multipart decoder inside the model: a part that writes `filename="u"` BEFORE `name="w"` is the field `w`
+    (the `\b` of the name pattern), and a part without a name parameter is no field -/
+private def mpBody1 : Bytes := [45, 45, 88, 88, 13, 10, 67, 111, 110, 116, 101, 110, 116, 45, 68, 105, 115, 112, 111, 115, 105, 116, 105, 111, 110, 58, 32, 102, 111, 114, 109, 45, 100, 97, 116, 97, 59, 32, 102, 105, 108, 101, 110, 97, 109, 101, 61, 34, 117, 34, 59, 32, 110, 97, 109, 101, 61, 34, 119, 34, 13, 10, 13, 10, 49, 13, 10, 45, 45, 88, 88, 45, 45, 13, 10]
+private def mpBody2 : Bytes := [45, 45, 88, 88, 13, 10, 67, 111, 110, 116, 101, 110, 116, 45, 68, 105, 115, 112, 111, 115, 105, 116, 105, 111, 110, 58, 32, 102, 111, 114, 109, 45, 100, 97, 116, 97, 59, 32, 102, 105, 108, 101, 110, 97, 109, 101, 61, 34, 117, 34, 13, 10, 13, 10, 49, 13, 10, 45, 45, 88, 88, 45, 45, 13, 10]
+example : (({ rqA with boundary := some [88, 88], body := some mpBody1 } : ReqF).multipart) = [([119], [49])] := by decide +kernel
+example : (({ rqA with boundary := some [88, 88], body := some mpBody2 } : ReqF).multipart) = [] := by decide +kernel
+example : (({ rqA with boundary := none, body := some mpBody1 } : ReqF).multipart) = [] := by decide
 example : Agree oNoHost rqA rqB ∧ ¬ Agree oAll rqA rqB := by
   constructor
   · simp [Agree, oNoHost, rqA, rqB, contentOf]
